@@ -37,6 +37,20 @@
 #endif
 #define VFM_WORDS	(VF_PIPE_CAP / 8)
 
+/* The models' own accesses are constant-index field accesses inside the first VF_PIPE_CAP bytes
+ * of the buffer handed to read() (whose size the read() stub asserts); CBMC's automatic checks
+ * are switched off for them (they only multiply the formula), the explicit obligations stay. */
+#ifndef VF_NATIVE
+#pragma CPROVER check push
+#pragma CPROVER check disable "bounds"
+#pragma CPROVER check disable "pointer"
+#pragma CPROVER check disable "pointer-overflow"
+#pragma CPROVER check disable "pointer-primitive"
+#pragma CPROVER check disable "signed-overflow"
+#pragma CPROVER check disable "undefined-shift"
+#pragma CPROVER check disable "div-by-zero"
+#endif
+
 /* word c (constant) of the buffer */
 static inline uint64_t vfm_Wc(const tpt_msg_pkt_t *pp, size_t c) {
 	switch (c & 3) {
@@ -54,22 +68,21 @@ static inline void vfm_Wc_set(tpt_msg_pkt_t *pp, size_t c, uint64_t v) {
 	default: pp[c >> 2].chk_sum = (size_t)v; break;
 	}
 }
-/* word w (symbolic) of the modelled prefix; 0 beyond it (callers mask / range-check) */
-static uint64_t vfm_W(size_t w) {
+/* snapshot of the modelled prefix as words (a small local array: symbolic indexing is cheap);
+ * two zero words behind it stand for "beyond the prefix" (callers mask / range-check) */
+typedef struct { uint64_t w[VFM_WORDS + 2]; } vfm_snap_t;
+static inline void vfm_snap(vfm_snap_t *L) {
 	const tpt_msg_pkt_t *pp = (const tpt_msg_pkt_t *)vf_rd_buf;
-	for (size_t c = 0; c < VFM_WORDS; c ++) {
-		if (w == c)
-			return (vfm_Wc(pp, c));
-	}
-	return (0);
+	for (size_t c = 0; c < VFM_WORDS; c ++)
+		L->w[c] = vfm_Wc(pp, c);
+	L->w[VFM_WORDS] = 0;
+	L->w[VFM_WORDS + 1] = 0;
 }
-/* unaligned little-endian 64-bit load at byte offset o */
-static uint64_t vfm_U(size_t o) {
+/* unaligned little-endian 64-bit load at byte offset o (o / 8 <= VFM_WORDS) */
+static inline uint64_t vfm_U(const vfm_snap_t *L, size_t o) {
 	const size_t w = o / 8, s = (o % 8) * 8;
-	const uint64_t lo = vfm_W(w);
-	if (s == 0)
-		return (lo);
-	return ((lo >> s) | (vfm_W(w + 1) << (64 - s)));
+	const uint64_t lo = L->w[w], hi = L->w[w + 1];
+	return ((s == 0) ? lo : ((lo >> s) | (hi << (64 - s))));
 }
 
 void *VFM(memcpy)(void *dst, const void *src, size_t n) {
@@ -82,11 +95,15 @@ void *VFM(memcpy)(void *dst, const void *src, size_t n) {
 #endif
 	const size_t o = VFM_OFF(src);
 	VFM_ASSERT(o <= vf_rd_last_ret && n <= vf_rd_last_ret - o, "memcpy: reads only bytes that read() returned");
+	if (!(o <= VF_PIPE_CAP - 32))
+		return (dst);			/* (obligation above failed) */
+	vfm_snap_t L;
+	vfm_snap(&L);
 	tpt_msg_pkt_t *d = (tpt_msg_pkt_t *)dst;
-	d->magic = (size_t)vfm_U(o);
-	d->msg_cb = (tpt_msg_cb)vfm_U(o + 8);
-	d->udata = (void *)vfm_U(o + 16);
-	d->chk_sum = (size_t)vfm_U(o + 24);
+	d->magic = (size_t)vfm_U(&L, o);
+	d->msg_cb = (tpt_msg_cb)vfm_U(&L, o + 8);
+	d->udata = (void *)vfm_U(&L, o + 16);
+	d->chk_sum = (size_t)vfm_U(&L, o + 24);
 	return (dst);
 }
 
@@ -97,18 +114,17 @@ void *VFM(memmove)(void *dst, const void *src, size_t n) {
 	    "model: memmove inside the receive buffer, to its start");
 	const size_t o = VFM_OFF(src);
 	VFM_ASSERT(o <= vf_rd_last_ret && n <= vf_rd_last_ret - o, "memmove: reads only bytes that read() returned");
+	if (!(o <= VF_PIPE_CAP && n <= VF_PIPE_CAP - o))
+		return (dst);			/* (obligation above failed) */
+	vfm_snap_t L;
+	vfm_snap(&L);
 	tpt_msg_pkt_t *pp = (tpt_msg_pkt_t *)dst;
-	/* forward word copy: dst <= src, so a source word is never overwritten before it is read */
 	for (size_t c = 0; c < VFM_WORDS; c ++) {
-		if (8 * c < n) {
-			uint64_t v = vfm_U(o + 8 * c);
-			const size_t rem = n - 8 * c;
-			if (rem < 8) {
-				const uint64_t m = (((uint64_t)1) << (8 * rem)) - 1;
-				v = (v & m) | (vfm_Wc(pp, c) & ~m);
-			}
-			vfm_Wc_set(pp, c, v);
-		}
+		/* byte j of word c is replaced iff 8c + j < n */
+		const size_t so = (o + 8 * c <= VF_PIPE_CAP) ? (o + 8 * c) : VF_PIPE_CAP;
+		uint64_t v = vfm_U(&L, so);
+		const uint64_t m = (8 * c >= n) ? 0 : (n - 8 * c >= 8) ? ~(uint64_t)0 : ((((uint64_t)1) << (8 * (n - 8 * c))) - 1);
+		vfm_Wc_set(pp, c, (v & m) | (L.w[c] & ~m));
 	}
 	return (dst);
 }
@@ -121,16 +137,22 @@ void *VFM(memmem)(const void *h, size_t hn, const void *nd, size_t nn) {
 	const size_t o = VFM_OFF(h);
 	VFM_ASSERT(o <= vf_rd_last_ret && hn <= vf_rd_last_ret - o, "memmem: reads only bytes that read() returned");
 	const uint64_t needle = *(const uint64_t *)nd;
-	const tpt_msg_pkt_t *pp = (const tpt_msg_pkt_t *)vf_rd_buf;
-	/* absolute byte offsets a are constants: the loads are constant-index field reads */
+	vfm_snap_t L;
+	vfm_snap(&L);
+	/* absolute byte offsets a are constants. The result is accumulated as an INTEGER (symex
+	 * propagates pointer values, and a pointer-valued if-then-else chain per call grows
+	 * exponentially over the receiver's loop). */
+	size_t res = (size_t)-1;
 	for (size_t a = 0; a + 8 <= VF_PIPE_CAP; a ++) {
 		const size_t w = a / 8, s = (a % 8) * 8;
-		uint64_t v = vfm_Wc(pp, w);
-		if (s != 0)
-			v = (v >> s) | (vfm_Wc(pp, w + 1) << (64 - s));
-		if (a >= o && a - o <= hn && 8 <= hn - (a - o) && v == needle)
-			return ((void *)((uint8_t *)vf_rd_buf + a));
+		const uint64_t v = (s == 0) ? L.w[w] : ((L.w[w] >> s) | (L.w[w + 1] << (64 - s)));
+		res = (res == (size_t)-1 && a >= o && a - o <= hn && 8 <= hn - (a - o) && v == needle) ? a : res;
 	}
-	return (NULL);
+	if (res == (size_t)-1)
+		return (NULL);
+	return ((void *)((uint8_t *)vf_rd_buf + res));
 }
+#ifndef VF_NATIVE
+#pragma CPROVER check pop
+#endif
 #endif
